@@ -114,6 +114,10 @@ class ConstructPipeline(RewritePattern):
                 break
             assert next_op is not None
 
+        # a valid pipeline consists of nothing but index ops and complete stages
+        if not isinstance(next_op, scf.YieldOp) or len(current_stage) > 0:
+            return
+
         # a valid pipeline has at least two stages
         if len(stages) < 2:
             return
